@@ -490,6 +490,94 @@ def run_r5(repo: Repo, res: Result) -> None:
     res.floor("C03.R5", 9, n)
 
 
+# --------------------------------------------------------------------------- R6
+
+
+def _derives(it: Interp, v, tag: str, depth: int = 0) -> bool:
+    if depth > 6:
+        return False
+    for sh in v:
+        if isinstance(sh, Sc) and tag in sh.srcs:
+            return True
+        if isinstance(sh, Tup) and any(_derives(it, x, tag, depth + 1) for x in sh.items):
+            return True
+        if isinstance(sh, Ref):
+            c = it.cell(sh)
+            if sh.kind == "coll" and _derives(it, frozenset(c.elem), tag, depth + 1):
+                return True
+            if sh.kind == "dict" and any(_derives(it, k, tag, depth + 1) or _derives(it, x, tag, depth + 1) for k, x in list(c.entries)):
+                return True
+            if sh.kind == "obj" and any(_derives(it, x, tag, depth + 1) for x in list(c.fields.values())):
+                return True
+    return False
+
+
+def run_r6(repo: Repo, res: Result) -> None:
+    """A matcher that is applied a second time (same Rule object, other architecture) must not read anything the first application
+    derived from *its* evaluable: the second application is interpreted on the very same abstract matcher object."""
+    T = types_of(repo)
+    base = repo.cls(MATCHER, "RuleMatcher")
+    modreq = repo.cls(MODREQ, "ModuleRequirement")
+    proto = repo.cls(EVAL_ARCH, "EvaluableArchitecture")
+    classes = _concrete_classes(repo, base)
+    if not classes:
+        raise AnalysisError("no concrete RuleMatcher found")
+    n = 0
+    for cls in classes:
+        entries = []
+        for k in repo.mro(cls):
+            for m in k.methods.values():
+                if _public(repo, m) and not m.is_abstract and repo.lookup_method(cls, m.name) is m and any(_mentions_class(_ann(T, m, p), proto.fq) for p in m.params[1:]):
+                    entries.append(m)
+        if not entries:
+            raise AnalysisError(f"{cls.fq}: no public method taking an EvaluableArchitecture found")
+        for entry in entries:
+            it = Interp(repo)
+
+            def mr_args():
+                counter = {"n": 0}
+
+                def mr_arg(p: ast.arg, init: FuncInfo):
+                    if _ann(T, init, p) == BOOL:
+                        return V(Const(True))
+                    counter["n"] += 1
+                    return V(it.coll(("input", "modreq", p.arg), "rule configuration", V(Sc(roles=ROLE_S if counter["n"] == 1 else ROLE_O))))
+
+                return mr_arg
+
+            def m_arg(p: ast.arg, init: FuncInfo):
+                if _mentions_class(_ann(T, init, p), modreq.fq):
+                    return it.instantiate(modreq, mr_args(), "modreq")
+                return V(Opaque(p.arg))
+
+            matcher = it.instantiate(cls, m_arg, "matcher")
+            it.writes = set()
+            head = f"{entry.relpath}::{cls.name}.{entry.name}"
+            try:
+                it.call_method(matcher, entry.name, [V(Sc(srcs=frozenset({"evaluable#1"}))) if _mentions_class(_ann(T, entry, p), proto.fq) else V(Opaque(p.arg)) for p in entry.params[1:]], "call-1")
+                consulted = [nm for nm, srcs in it.scalar_calls if "evaluable#1" in srcs]
+                stale = {(k, f) for (k, f) in it.writes if _derives(it, it.cells[k].fields.get(f, E), "evaluable#1")}
+                it.stale = set(stale)
+                it.stale_reads = []
+                it.call_method(matcher, entry.name, [V(Sc(srcs=frozenset({"evaluable#2"}))) if _mentions_class(_ann(T, entry, p), proto.fq) else V(Opaque(p.arg)) for p in entry.params[1:]], "call-2")
+            except RuntimeError as e:
+                raise AnalysisError(f"{entry.fq}: {e}") from e
+            if not consulted:
+                res.undecide("C03.R6", f"{head}::second application", f"the abstract evaluation never saw the evaluable being queried ({'; '.join(it.tops[:2]) or 'no call on it'})", where(entry, entry.node))
+                continue
+            reads = it.stale_reads
+            own = {sh.key for sh in matcher if isinstance(sh, Ref)}
+            names = sorted({f for k, f in stale if k in own})
+            n += 1
+            ok = not reads
+            detail = f"everything derived from the evaluable ({', '.join(names) or 'nothing is kept on the matcher'}) is recomputed before it is read when the matcher is applied again"
+            if not ok:
+                fields = sorted({r[2] for r in reads})
+                detail = f"applied a second time, the matcher reads `{'`, `'.join(fields)}` as left behind by the first application (first read: {reads[0][1].split('::', 1)[1]}): module lists resolved against another architecture are re-used, so imports of modules that exist only in the new architecture are missing from the report"
+            res.add("C03.R6", f"{head}::second application", ok, detail, reads[0][0] if reads else where(entry, entry.node), nontrivial=bool(names), kind="flow")
+    res.floor("C03.R6", 2, n)
+
+
 def run(repo: Repo) -> Result:
     res = Result("C03")
     res.explanation = (
@@ -506,4 +594,5 @@ def run(repo: Repo) -> Result:
     run_r2(repo, res)
     run_r3_r4(repo, res)
     run_r5(repo, res)
+    run_r6(repo, res)
     return res
